@@ -21,7 +21,7 @@ pub fn def() -> PropDef {
         run,
         shrink: Shrink::None,
         render,
-        rule: "{LOCAL, PROXY} x {unspec, stream, dgram} x every address value of UA (four families) x 6 fixed TLV lists; one address per family x every TLV list of length <= 2 over 15 type bytes (12 named types through the enum, raw 0x00 0xEE 0xFF) x value lengths {0,1,2,255,256,257}, length-3 lists over a reduced menu, and lists sized to exactly 65534 / 65535 payload bytes; each built through with_addresses(..).write_tlv(..) and through new(..).write_payload(addresses).write_payload(tlv); output compared with the independent encoder, with the reference v2 verdict, and with what the real parser returns (command, transport, addresses, bytes, TLV sequence when a family is specified); non-trivial = every case; distinct = hash of the case",
+        rule: "{LOCAL, PROXY} x {unspec, stream, dgram} x every address value of UA (four families) x 6 fixed TLV lists; one address per family x every raw type byte 0..=255 (value lengths 0, 1, 300) and every TLV list of length <= 2 over 15 type bytes (12 named types through the enum, raw 0x00 0xEE 0xFF) x value lengths {0,1,2,255,256,257}, length-3 lists over a reduced menu, and lists sized to exactly 65534 / 65535 payload bytes; each built through with_addresses(..).write_tlv(..) and through new(..).write_payload(addresses).write_payload(tlv); output compared with the independent encoder, with the reference v2 verdict, and with what the real parser returns (command, transport, addresses, bytes, TLV sequence when a family is specified); non-trivial = every case; distinct = hash of the case",
         assumptions: &["TLV values are position-dependent byte patterns, not arbitrary bytes", "registered TLV type codes are copied from the specification text (PP2_TYPE_*)"],
     }
 }
@@ -333,6 +333,13 @@ pub fn list_cases(thorough: bool) -> Vec<Vec<u8>> {
                     }
                 }
             }
+        }
+        // every raw type byte, alone and after a named item
+        for k in 0..=255u8 {
+            for l in [0usize, 1, 300] {
+                cases.push(encode(1, 1, &a, &[TlvSpec { mode: 1, kind: k, len: l }]));
+            }
+            cases.push(encode(0, 2, &a, &[TlvSpec { mode: 0, kind: k % 12, len: 2 }, TlvSpec { mode: 1, kind: k, len: 1 }]));
         }
         // totals of exactly 65533, 65534 and 65535 payload bytes
         let size = a.block().len();
